@@ -46,6 +46,7 @@ def run(ctx):
         "one manager per queried file: answers are those of a server that has analysed nothing else before (which documents were analysed earlier can change the table a descendant's parent pointer refers to: cache coherence is C02's subject)",
         "alias types are resolved through the class's own chain or through used modules (entities that depend on nothing), so that no table is consulted while it is half built by a cyclic dependency",
     ]
+    ctx.extract(["E8_ScopeConsts"])      # native keys, intrinsics, completion filters: the model consumes them
     if ctx.replay:
         return replay(ctx)
     ctx.prove("GoldModel.Props.C10")
